@@ -19,9 +19,9 @@ NPROC = int(os.environ.get("VERIF_NPROC", "16"))
 TRUSTED_BASE = [
     "Coq 8.16.1 kernel as run by coqc (vm_compute used in reflection lemmas; no native_compute)",
     "extraction with ExtrOcamlBasic + ExtrOcamlString only; OCaml 4.13.1 ocamlfind ocamlopt; coq/Extract/main.ml (10 lines of I/O glue)",
-    "tools/translate*.py (source -> coq/gen/*.v on every run, fail closed: tables, regexes, cache keys, write effects, and the bodies of the calendar helpers, Duration and TimeRecurrence methods, proved equal to the model)",
+    "tools/translate*.py (source -> coq/gen/*.v on every run, fail closed: tables, regexes, cache keys, write effects, and the bodies of the calendar helpers and of the TimePoint, Duration and TimeRecurrence methods, proved equal to the model)",
     "tools/impl.py + tools/harness.py + tools/props/*.py (generators, canonicalisation, comparison)",
-    "hand-written Gallina model of the remaining algorithms (TimePoint methods, parsers, dumper, CLI), tied to the code by the correspondence run of this check",
+    "hand-written Gallina model of the remaining algorithms (parsers, dumper, strftime, CLI, text forms), tied to the code by the correspondence run of this check",
     "CPython: int, float, re, str formatting are modelled, not verified",
 ]
 
